@@ -20,7 +20,7 @@ def vocab(seed):
              ('unnest', ('split', F('a', 2), ';')), ('unnest', ('list', F('a', 1), F('a', 2))), ('unnest', ('list',))]
     wheres = [None, ('cmp', '==', F('a', 1), ('lit', k)), ('cmp', '>', ('NR',), ('int', 1)), ('cmp', '==', ('NF',), ('int', 2)), ('like', F('a', 1), k[0] + '%'), ('cmp', '!=', F('a', 1), ('lit', "$'$&"))]
     rows = [[], [k], [None], [k, m], [m, k + ';' + m], [k, None], [m, k, k + ';' + m], [None, k + ';' + m, m]]
-    jitems = [F('a', 1), F('b', 1), F('b', 2), ('NR',), ('bNR',), ('star', None), ('star', 'a'), ('star', 'b'), ('lit', 'x'),
+    jitems = [F('a', 1), F('b', 1), F('b', 2), ('NR',), ('NF',), ('bNR',), ('star', None), ('star', 'a'), ('star', 'b'), ('lit', 'x'),
               ('unnest', ('list', F('a', 1), F('b', 2))), ('unnest', ('split', F('a', 2), ';'))]
     jwheres = [None, ('cmp', '==', F('b', 2), ('lit', 'p')), ('cmp', '>', ('NR',), ('int', 1))]
     jrows = [[k], [m], [k, m], [m, k + ';' + m], []]
